@@ -445,6 +445,10 @@ class UTPM(Ring, RawAlgorithmsMixIn):
             return self.__class__(y_data)
 
     def __rpow__(self,r):
+        # log in (at least) double precision, also for python ints of any size and for
+        # bases of a narrow numpy type (uint8, float16, float32, ...)
+        if not numpy.iscomplexobj(r):
+            r = numpy.asarray(r, dtype=float)
         return UTPM.exp(numpy.log(r)*self)
 
 
